@@ -222,6 +222,10 @@ def _norm_slice(eng, st, sl, n, label):
     if step not in (1, -1):
         if isinstance(step, int) and step > 1 and sl.lo is None and sl.hi is None:
             return 0, V.floordiv(V.add(n, step - 1), step), step
+        if isinstance(step, int) and step != 0 and isinstance(n, int) and all(v is None or isinstance(v, int) for v in (sl.lo, sl.hi)):
+            # fully concrete: Python's own slice arithmetic (clipping included)
+            r_ = range(*slice(sl.lo, sl.hi, step).indices(n))
+            return (r_.start if len(r_) else 0), len(r_), step
         raise Unsupported("slice step other than +-1")
 
     def fix(v, default):
@@ -417,9 +421,17 @@ def np_store(eng, st, arr, idx, v, node=None):
                 if step == 1:
                     cs.append(V.b_and(V.cmp("<=", lo, i), V.cmp("<", i, V.add(lo, ln))))
                     vix.append(V.sub(i, lo))
-                else:
+                elif step == -1:
                     cs.append(V.b_and(V.cmp(">=", lo, i), V.cmp(">", i, V.sub(lo, ln))))
                     vix.append(V.sub(lo, i))
+                elif isinstance(step, int) and step > 1:
+                    d_ = V.sub(i, lo)
+                    cs.append(V.b_and(V.cmp("<=", lo, i), V.cmp("<", i, V.add(lo, V.mul(ln, step))), V.cmp("==", V.mod(d_, step), 0)))
+                    vix.append(V.floordiv(d_, step))
+                else:
+                    d_ = V.sub(lo, i)
+                    cs.append(V.b_and(V.cmp(">=", lo, i), V.cmp(">", i, V.add(lo, V.mul(ln, step))), V.cmp("==", V.mod(d_, -step), 0)))
+                    vix.append(V.floordiv(d_, -step))
         cond = V.b_and(*cs)
         if is_arr(v):
             # broadcast v against the selected region
@@ -993,6 +1005,9 @@ def install(eng):
         if eng.truthy(st, copy) is False and isinstance(x, Ref):
             eng.frame_write(st, x, f"nan_to_num@{getattr(eng, 'cur_line', 0)}")
             return x
+        if eng.truthy(st, copy) is False:
+            # in place on an array held by value: the result is (a view of) the same buffer
+            return eng.alloc(st, ArrV(xd.shape, xd.fn, xd.dtype, bufs=xd.bufs))
         return eng.alloc(st, ArrV(xd.shape, xd.fn, xd.dtype))
 
     reg("nan_to_num", f_nan_to_num)
